@@ -301,9 +301,9 @@ func checkEntry(t *testing.T, c Case) harness.Verdict {
 	out, err = x509.RemoveCTPoison(w.FTBS)
 	mustFail(&v, "zero-poison-accepted", "RemoveCTPoison on the final certificate", short(out), err)
 	withS := insertExt(w.ExtsE, w.SCTq, pki.SCTList(w.List))
-	second := pki.SCTList(w.listWith(w.Anchor, w.SCTs[(w.Anchor+1)%len(w.SCTs)]))
-	if c.SCT2Pos%2 == 0 {
-		second = pki.SCTList(w.List) // an identical twin
+	second := pki.SCTList(w.List) // an identical twin
+	if one, err := rfc6962.EncodeSCTList(w.SCTs[w.Anchor : w.Anchor+1]); err == nil && c.SCT2Pos%2 == 1 {
+		second = pki.SCTList(one) // a different list
 	}
 	f2 := w.tbsOf(&c, w.IName, insertExt(withS, clamp(c.SCT2Pos, len(withS)), second))
 	out, err = x509.RemoveSCTList(f2)
@@ -362,6 +362,6 @@ func issuerNameOfP(w *World, c *Case) pki.Name {
 var Entry = harness.Define(harness.Opts{
 	Name:     "entry",
 	Rule:     "canonical TBSCertificates (0-8 non-CT extensions, any order / criticality, mixed name encodings, serial 1-20 bytes, UTCTime / GeneralizedTime, EC / RSA / Ed25519, unique ids), poison at p, SCT list at q, with / without pre-issuer and AKIs; non-trivial = CT extension neither first nor last, or pre-issuer, or >= 3 other extensions",
-	Quick:    1500,
-	Thorough: 12000,
+	Quick:    2500,
+	Thorough: 20000,
 }, func(t *rapid.T) Case { return genCase(t, false) }, checkEntry)
